@@ -305,8 +305,10 @@ func addrOf(kind byte, i int) module.Address {
 	return common.NewAccountAddress(id)
 }
 
-func runBlock(bc *blockCase) observation {
+func runBlock(bc0 *blockCase) observation {
 	var o observation
+	bcCopy := *bc0 // workers of a failed concurrent block may outlive this call: give them their own copy
+	bc := &bcCopy
 	dbase := db.NewMapDB()
 	p := &plt{Platform: basic.Platform}
 	ch := &chain{level: bc.Level}
@@ -363,7 +365,8 @@ func runBlock(bc *blockCase) observation {
 	for _, t := range b.txs {
 		o.Attempts = append(o.Attempts, int(t.execs.Load()))
 	}
-	if o.Deadlock {
+	if o.Deadlock || o.Err {
+		// on an error return dispatched workers may still be writing receipts: the buffer is not read
 		return o
 	}
 	for i := 0; i < n; i++ {
@@ -504,7 +507,7 @@ func coqCase(bc *blockCase, o observation, picks []int) string {
 		att = append(att, hxlib.CoqNat(a))
 	}
 	for _, x := range picks {
-		pk = append(pk, hxlib.CoqNat(x))
+		pk = append(pk, fmt.Sprint(x))
 	}
 	return fmt.Sprintf("(Case %s %s %s %s %s %s %s %s %s %s)", mode, hxlib.CoqBool(bc.Skipping), hxlib.CoqNat(bc.Level),
 		hxlib.CoqList(skips), hxlib.CoqList(scripts), hxlib.CoqList(pk),
@@ -581,7 +584,7 @@ func emit(c *hxlib.Ctx, kind string, bc *blockCase, r *rand.Rand) {
 	cs := hxlib.Case{Kind: kind, Input: *bc, Nontrivial: nontrivial(bc), OracleErr: msg, Key: caseKey(bc)}
 	if !c.OracleOnly && !last.Deadlock && last.Panic == "" && !last.Runaway {
 		n := len(bc.Txs)
-		picks := make([]int, 12*n+12)
+		picks := make([]int, 10*n+8)
 		for i := range picks {
 			picks[i] = r.Intn(64)
 		}
@@ -753,7 +756,8 @@ func replay(raw json.RawMessage) string {
 
 func main() {
 	hxlib.Main(hxlib.Spec{
-		ID: "C10",
+		ID:       "C10",
+		Preamble: "From Goloop Require Import Model_BlockExec.\nFrom GoloopRun Require Import Run_C10.",
 		Rule: "blocks of scripted transactions run through the real executeTxs/executeTxsSequential/executeTxsConcurrent: " +
 			"(1) every position x 11 failure kinds (retry then success, retries exhausted, three non-retryable error classes, failure delivered by Execute or by OnTransactionEnd) x sequential + concurrency levels 2..8, blocks of 1/3/6 transactions, each run under 2 jitter seeds; " +
 			"(2) all-success and empty blocks; (3) random blocks of 1..10 transactions with several failing transactions and the skip-transaction branch; " +
